@@ -17,6 +17,21 @@ CLAIMED = {
              "primitives are C11's subject."),
 }
 
+CLAIMED["C14"] = dict(
+    engine="tok", design_ref="6.14",
+    technique="Lean 4 proof: kernel-checked equality of the table regenerated from entities.rs with the frozen WHATWG "
+              "table (decide +kernel, 2231 rows), lookup/prefix-closure and numeric-accumulator theorems; "
+              "model/code correspondence + exhaustive enumeration of names x followers x contexts against a reference decoder",
+    text="The named-reference table and the C1 table compiled into html5ever are proved equal to frozen WHATWG references "
+         "on every run (translator + kernel); the model of build.rs/phf lookup is proved exact on names, prefix-closed and "
+         "empty elsewhere; the wrapping numeric accumulator with its overflow latch is proved to decide 'value > 0x10FFFF' "
+         "for digit strings of any length and finish_numeric to return the standard's code point. The char-ref model is tied "
+         "to the Rust by the tok correspondence; the property's finite quantifier is enumerated on the real code against an "
+         "independent Python decoder (quick: a stratified subset, thorough: the full product and all numeric values).",
+    note="Trusted: Lean kernel; tools/extract.py; Python's html.entities as the WHATWG reference; the Python reference "
+         "decoder; phf/string_cache are modelled as a finite map. The longest-match walk is carried by the correspondence "
+         "and the enumeration, not yet by a theorem.")
+
 PENDING_REASON = "not claimed yet: the Lean model / engine for this property is still under construction (see DESIGN.md section 8); no check is registered rather than registering one that is not sound"
 
 def main():
